@@ -83,7 +83,7 @@ def main(tier, replay=None, selftest=False):
     vlib.tlc_must_pass(res)
     allopts = sorted(res["cases"]["OPTS"], key=lambda c: json.dumps(c, sort_keys=True))
     default = next(c["options"] for c in allopts if c["distance"] == 0)
-    nprog, nopt = (36, 9) if tier == "quick" else (300, 40)
+    nprog, nopt = (36, 9) if tier == "quick" else (110, 20)
     sj, progs = progcheck.tlc_program_sample(ck, 1500 if tier == "quick" else 12000, nprog)
     # option sets: every single change of the default, then seeded ones; every option value is covered
     singles = [c["options"] for c in allopts if c["distance"] == 1]
@@ -119,7 +119,7 @@ def main(tier, replay=None, selftest=False):
                          "want_inventory": bool(o["extern_enums"])})
             meta[jid] = (pi, oi)
     results, _ = vlib.gqlv("gen", jobs, timeout=2400)
-    cons = Consumers("c09", nbins=14)
+    cons = Consumers("c09", nbins=(14 if tier == "quick" else 28))
     ok = {}
     for r in results:
         pi, oi = meta[r["id"]]
